@@ -181,9 +181,9 @@ func newNet(in *Input) *netsim.Sim {
 		if strings.HasSuffix(route, "*") {
 			continue
 		}
-		b, l := body, in.Lengths[route]
+		b, l, e := body, in.Lengths[route], in.Endless[route]
 		net.Handle(route, func(*netsim.Request) netsim.Reply {
-			return netsim.Reply{Body: b, Class: "scripted", ContentLength: l}
+			return netsim.Reply{Body: b, Class: "scripted", ContentLength: l, Endless: e}
 		})
 	}
 	if in.Together {
